@@ -1290,11 +1290,13 @@ def gen_c(d, opts=None, name=None):
         g.global_lines(d.int(1, 3))
         g.blank()
         g.tag("section:global")
-    if d.bool(0.3):
+    forward = d.bool(0.25) or "forward-protos" in opts.get("force", ())
+    if not forward and d.bool(0.3):
         specs = g.proto_specs(d.int(1, 3), static_only=True)
         g.emit_aligned(specs, "proto")
         g.blank()
         g.tag("section:proto")
+    mark = len(p.lines)
     nfun = opts.get("nfuncs") or d.weighted([(4, 1), (3, 2), (2, 3), (1, 4), (1, 5)])
     for i in range(nfun):
         if i:
@@ -1302,6 +1304,33 @@ def gen_c(d, opts=None, name=None):
         if d.bool(0.15):
             g.comment_lines()
         g.function(i)
+    if forward:
+        # forward declarations (static prototypes) of functions defined below, possibly with prototypes of other functions in between
+        specs = []
+        for f in p.funcs:
+            hl = p.lines[f["head"]]
+            if hl.info.get("static") and d.bool(0.7):
+                k0 = min(k for k, x in enumerate(hl.lex) if "ptr-func" in x.tags or "func-name" in x.tags)
+                dec = [x.copy() for x in hl.lex[k0:]] + [Lx(";", "semi")]
+                for x in dec:
+                    if "func-name" in x.tags:
+                        x.tags = tuple(x.tags) + ("proto-name", "forward-decl")
+                specs.append(("static " + hl.info["rtype"], dec))
+                if d.bool(0.4):
+                    specs += g.proto_specs(1, static_only=True)
+        if specs:
+            if d.bool(0.3):
+                specs.reverse()
+            tail = p.lines[mark:]
+            del p.lines[mark:]
+            g.emit_aligned(specs, "proto")
+            g.blank()
+            n = len(p.lines) - mark
+            p.lines += tail
+            for f in p.funcs:
+                for key in ("head", "open", "close"):
+                    f[key] += n
+            g.tag("section:proto", "proto:forward")
     return p
 
 
